@@ -1,5 +1,5 @@
 \* C02 cover: 2 files x <= 4 line classes, 16 diagnostic option combinations, bursts only as first line
-CONSTANTS MaxLines = 4 MaxFiles = 2 Wrap = 0 Leaky = {} BigFirst = TRUE
+CONSTANTS MaxLines = 4 MaxFiles = 2 Wrap = 0 Leaky = {} MaxLater = 4 BigFirst = TRUE HistView = FALSE
 CONSTANTS Kinds <- KindsDiag OptSpace <- OptsDiag
 INIT GInit
 NEXT GNext
